@@ -57,13 +57,27 @@ func failEdge(c *Ctx, p *ssa.BasicBlock, k int) (bool, string) {
 	ei := errIndex(fn.Signature)
 	bad := ""
 	// 1. must not re-enter p or any block dominating p (loop continuation) without cancelling
+	relevant := map[*ssa.BasicBlock]bool{p: true}
+	var mark func(b *ssa.BasicBlock)
+	mark = func(b *ssa.BasicBlock) {
+		if relevant[b] && b != p {
+			return
+		}
+		relevant[b] = true
+		for _, s := range b.Succs {
+			if s != p {
+				mark(s)
+			}
+		}
+	}
+	mark(start)
 	hit, path := reachFrom(start, 0, func(in ssa.Instruction) bool {
 		if in.Block() == p && instrIndex(in) == 0 {
 			return true
 		}
 		if r, ok := in.(*ssa.Return); ok {
 			if ei >= 0 && ei < len(r.Results) {
-				return isNilConst(retVal(r, ei))
+				return !c.definitelyNonNilErr(retVal(r, ei), r.Block(), relevant)
 			}
 			return true // stage goroutine: a return not preceded by cancel
 		}
@@ -250,3 +264,118 @@ func callsWithConstArg(f *ssa.Function, id string, idx int, s string) []*ssa.Cal
 }
 
 const tT = "(*trzsz.trzszTransfer)."
+
+// nonNilErrCtors: functions whose error result is never nil (constructors), confirmed by reading.
+var nonNilErrCtors = map[string]bool{
+	"fmt.Errorf": true, "errors.New": true, "context.Cause": true,
+}
+
+// alwaysNonNilErr: a module function all of whose returns give a definitely non-nil error (memoised).
+func (c *Ctx) alwaysNonNilErr(f *ssa.Function) bool {
+	if c.nnMemo == nil {
+		c.nnMemo = map[*ssa.Function]int{}
+	}
+	switch c.nnMemo[f] {
+	case 1:
+		return true
+	case 2, 3:
+		return false
+	}
+	c.nnMemo[f] = 3 // in progress: recursion answers no
+	ei := errIndex(f.Signature)
+	good := ei >= 0 && len(f.Blocks) > 0
+	if good {
+		n := 0
+		eachInstr(f, func(in ssa.Instruction) {
+			if r, ok := in.(*ssa.Return); ok {
+				n++
+				if !c.definitelyNonNilErr(retVal(r, ei), r.Block(), nil) {
+					good = false
+				}
+			}
+		})
+		if n == 0 {
+			good = false
+		}
+	}
+	if good {
+		c.nnMemo[f] = 1
+	} else {
+		c.nnMemo[f] = 2
+	}
+	return good
+}
+
+// definitelyNonNilErr: every origin of the error value v, as seen at block at, is non-nil:
+// a value tested != nil on a dominating edge, a constructor call, a concrete value boxed
+// into the interface, or a package-level error variable. relevant (optional) restricts phi
+// edges to predecessors inside the region under consideration.
+func (c *Ctx) definitelyNonNilErr(v ssa.Value, at *ssa.BasicBlock, relevant map[*ssa.BasicBlock]bool) bool {
+	if v == nil {
+		return false
+	}
+	fs := factsAt(at)
+	for _, l := range origins(v, originOpts{}) {
+		if relevant != nil && len(l.Via) > 0 && !relevant[l.Via[len(l.Via)-1]] {
+			continue // this phi edge is not taken on the paths considered
+		}
+		lv := l.V
+		if isNilConst(lv) {
+			return false
+		}
+		if factCmp(append(append([]fact{}, fs...), l.facts()...), token.NEQ, isValue(lv), isNilConst) {
+			continue
+		}
+		switch x := lv.(type) {
+		case *ssa.MakeInterface:
+			if !isNilConst(x.X) {
+				continue
+			}
+		case *ssa.UnOp:
+			if _, ok := x.X.(*ssa.Global); ok && x.Op == token.MUL {
+				continue
+			}
+		case *ssa.Call:
+			id := calleeID(&x.Call)
+			if nonNilErrCtors[id] {
+				continue
+			}
+			if callee := x.Call.StaticCallee(); callee != nil && c.inPkg(callee) && (c.alwaysNonNilErr(callee) || c.alwaysFreshPtr(callee, 0)) {
+				continue
+			}
+		}
+		return false
+	}
+	return true
+}
+
+// alwaysFreshPtr: module function with a single pointer result whose every return is a fresh
+// allocation (&T{...}) or the result of another such function (error constructors returning *trzszError).
+func (c *Ctx) alwaysFreshPtr(f *ssa.Function, depth int) bool {
+	if depth > 4 || len(f.Blocks) == 0 || f.Signature.Results().Len() != 1 {
+		return false
+	}
+	if _, ok := f.Signature.Results().At(0).Type().Underlying().(*types.Pointer); !ok {
+		return false
+	}
+	good, n := true, 0
+	eachInstr(f, func(in ssa.Instruction) {
+		r, ok := in.(*ssa.Return)
+		if !ok {
+			return
+		}
+		n++
+		for _, l := range origins(retVal(r, 0), originOpts{}) {
+			switch x := l.V.(type) {
+			case *ssa.Alloc:
+				continue
+			case *ssa.Call:
+				if callee := x.Call.StaticCallee(); callee != nil && c.inPkg(callee) && c.alwaysFreshPtr(callee, depth+1) {
+					continue
+				}
+			}
+			good = false
+		}
+	})
+	return good && n > 0
+}
